@@ -3,3 +3,5 @@ import MdkVerif.Model.Basic
 import MdkVerif.Model.Store
 import MdkVerif.Model.Leak
 import MdkVerif.GeneratedLeak
+import MdkVerif.Model.Codec
+import MdkVerif.Model.Tags
